@@ -11,6 +11,10 @@ type ('a, 'b) sum =
 | Inl of 'a
 | Inr of 'b
 
+val fst : ('a1 * 'a2) -> 'a1
+
+val snd : ('a1 * 'a2) -> 'a2
+
 val length : 'a1 list -> nat
 
 val app : 'a1 list -> 'a1 list -> 'a1 list
@@ -51,11 +55,38 @@ type n =
 
 module Pos :
  sig
+  type mask =
+  | IsNul
+  | IsPos of positive
+  | IsNeg
+ end
+
+module Coq_Pos :
+ sig
   val succ : positive -> positive
 
   val add : positive -> positive -> positive
 
   val add_carry : positive -> positive -> positive
+
+  val pred_double : positive -> positive
+
+  type mask = Pos.mask =
+  | IsNul
+  | IsPos of positive
+  | IsNeg
+
+  val succ_double_mask : mask -> mask
+
+  val double_mask : mask -> mask
+
+  val double_pred_mask : positive -> mask
+
+  val sub_mask : positive -> positive -> mask
+
+  val sub_mask_carry : positive -> positive -> mask
+
+  val mul : positive -> positive -> positive
 
   val eqb : positive -> positive -> bool
  end
@@ -63,6 +94,10 @@ module Pos :
 module N :
  sig
   val add : n -> n -> n
+
+  val sub : n -> n -> n
+
+  val mul : n -> n -> n
 
   val eqb : n -> n -> bool
  end
@@ -84,6 +119,8 @@ type mev =
 | EvStore of var * ord * n
 | EvSwap of var * ord * n * n
 | EvCas of var * ord * ord * n * n * n * bool
+| EvCasW of var * ord * ord * n * n * n * bool
+| EvFsub of var * ord * n * n
 | EvFor of var * ord * n * n
 | EvFand of var * ord * n * n
 | EvPark
@@ -324,3 +361,254 @@ type svar =
 val call : fn -> ((svar * sop) * ord option) * ord option
 
 val skeleton : (fn * (((svar * sop) * ord option) * ord option) list) list
+
+type rw =
+| RD
+| WR
+
+type rop =
+| ROLock of rw
+| ROTry of rw
+| ROAsync of rw
+| ROPoll of rw
+| RODropFut
+| ROWait
+
+type rres =
+| RRL of rw
+| RRT of rw * bool
+| RRA of rw
+| RRP of bool
+
+type rch =
+| RGo
+| RAgain
+| RSpur
+
+type ractx =
+| RALock of rw
+| RASpin of rw * bool
+| RATry of rw
+| RAFirst of rw * bool
+| RAPoll of rw * bool
+
+type rqctx =
+| RQSync of rw * bool
+| RQFut of rw * bool
+
+type rfixk =
+| RFQ of rqctx
+| RFX of rqctx
+| RFD
+| RFW of (wk * nat) list
+
+type rlctx =
+| RLQ of rqctx
+| RLX of rqctx
+| RLDrop
+| RLWake
+
+type rpc =
+| RIdle
+| RTALoad of ractx
+| RTACasR of ractx * bool * n
+| RTACasW of ractx * bool * bool
+| RYield of rw * bool
+| RSpinNext of rw * bool
+| RPollNext of rw * bool
+| RLLSwap of rlctx
+| RLLLoad of rlctx
+| RLLSpin of rlctx
+| RQRearm of rqctx
+| RQFor of rqctx
+| RQLoad of rqctx
+| RQCasR of rqctx * bool * n
+| RQCasW of rqctx * bool * bool
+| RFix1 of rfixk
+| RFix2 of rfixk
+| RQUnl of rqctx * bool
+| RPLoad of rw
+| RPark of rw
+| RBPark
+| RXUnl of rqctx
+| RCS of rw
+| RURel of rw
+| RWSweep of (wk * nat) list
+| RWUnl of (wk * nat) list
+| RWWake of nat * (wk * nat) list
+| RDUnl
+| RDLoad
+| RWaitW
+
+type rwstate = { wl : bool; wp : bool; hq : bool; rd : n;
+                 rllock : nat option; rqueue : (nat * bool) list;
+                 rnarm : (nat -> wk option); rnwk : (nat -> bool);
+                 rtoken : (nat -> bool); rbwoken : (nat -> bool);
+                 rprog : (nat -> rop list); rpcs : (nat -> rpc);
+                 rfut : (nat -> (rw * bool) option); wholders : nat list;
+                 rholders : nat list; rresults : (nat * rres) list }
+
+val rresults : rwstate -> (nat * rres) list
+
+val rs_word : rwstate -> (((bool * bool) * bool) * n) -> rwstate
+
+val rs_wl : rwstate -> bool -> rwstate
+
+val rs_wp : rwstate -> bool -> rwstate
+
+val rs_hq : rwstate -> bool -> rwstate
+
+val rs_rd : rwstate -> n -> rwstate
+
+val rs_llock : rwstate -> nat option -> rwstate
+
+val rs_queue : rwstate -> (nat * bool) list -> rwstate
+
+val rs_narm : rwstate -> nat -> wk option -> rwstate
+
+val rs_nwk : rwstate -> nat -> bool -> rwstate
+
+val rs_token : rwstate -> nat -> bool -> rwstate
+
+val rs_bwoken : rwstate -> nat -> bool -> rwstate
+
+val rs_prog : rwstate -> nat -> rop list -> rwstate
+
+val rs_pc : rwstate -> nat -> rpc -> rwstate
+
+val rs_fut : rwstate -> nat -> (rw * bool) option -> rwstate
+
+val rs_wholders : rwstate -> nat list -> rwstate
+
+val rs_rholders : rwstate -> nat list -> rwstate
+
+val rlog : rwstate -> nat -> rres -> rwstate
+
+val qmem : nat -> (nat * bool) list -> bool
+
+val qrem : nat -> (nat * bool) list -> (nat * bool) list
+
+val nwriters : (nat * bool) list -> nat
+
+val first_writer : (nat * bool) list -> nat option
+
+val rem1 : nat -> nat list -> nat list
+
+val renc : bool -> bool -> bool -> n -> n
+
+val rword : rwstate -> n
+
+val ro_ta_load : ord
+
+val ro_ta_cas : ord
+
+val ro_ta_casf : ord
+
+val ro_q_for : ord
+
+val ro_q_load : ord
+
+val ro_q_cas : ord
+
+val ro_q_casf : ord
+
+val ro_fix : ord
+
+val ro_unlock : ord
+
+val rkind_a : ractx -> rw
+
+val rkind_q : rqctx -> rw
+
+val is_wr : rw -> bool
+
+val rw_eqb : rw -> rw -> bool
+
+val rkind_of : rqctx -> wk
+
+val rres_a : ractx -> rres
+
+val rres_q : rqctx -> rres
+
+val rret : rwstate -> nat -> rpc -> mev -> (rwstate * mev) option
+
+val ta_fail : rwstate -> nat -> ractx -> mev -> (rwstate * mev) option
+
+val rdo_taload : rwstate -> nat -> ractx -> (rwstate * mev) option
+
+val rafter_llock : rwstate -> nat -> rlctx -> rwstate
+
+val rdo_llswap : rwstate -> nat -> rlctx -> (rwstate * mev) option
+
+val rdo_wait : rwstate -> nat -> rch -> (rwstate * mev) option
+
+val rdispatch : rwstate -> nat -> rch -> rop list -> (rwstate * mev) option
+
+val rblock_next : rwstate -> nat -> rwstate
+
+val rdo_fix1 : rwstate -> nat -> rfixk -> (rwstate * mev) option
+
+val rflush : rwstate -> nat -> (wk * nat) list -> rwstate
+
+val wake_of : rwstate -> nat -> (wk * nat) list
+
+val after_acq_a : rwstate -> nat -> ractx -> rw -> rpc
+
+val rwstep : rwstate -> nat -> rch -> (rwstate * mev) option
+
+val rwinit : (nat -> rop list) -> rwstate
+
+val rwsys : (nat -> rop list) -> system
+
+val rw_replay_trace :
+  (nat -> rop list) -> ((nat * rch) * mev) list -> (rwstate option, nat) sum
+
+val rwpeek : rwstate -> nat -> rch -> mev option
+
+type rfn =
+| RfTryAcqR
+| RfTryAcqW
+| RfRead
+| RfReadSlow
+| RfReadAsync
+| RfWrite
+| RfWriteSlow
+| RfWriteAsync
+| RfTryRead
+| RfTryWrite
+| RfUnlockR
+| RfUnlockW
+| RfFixFlags
+| RfWakeWaiters
+| RfRGuardDrop
+| RfWGuardDrop
+| RfRFutPoll
+| RfRFutFinish
+| RfRFutDrop
+| RfWFutPoll
+| RfWFutFinish
+| RfWFutDrop
+| RfListLock
+| RfRearm
+| RfMarkWoken
+| RfWake
+
+type rsop =
+| RsLoad
+| RsStore
+| RsCas
+| RsCasWeak
+| RsFor
+| RsFand
+| RsFsub
+| RsPark
+| RsYield
+| RsCall of rfn
+
+val rcall : rfn -> ((svar * rsop) * ord option) * ord option
+
+val rq_section : (((svar * rsop) * ord option) * ord option) list
+
+val rpark_tail : (((svar * rsop) * ord option) * ord option) list
+
+val rskeleton : (rfn * (((svar * rsop) * ord option) * ord option) list) list
